@@ -165,6 +165,167 @@ fn deep_driver(_ctx: &RunCtx, stats: &mut Stats, rep: &mut Reporter) {
     });
 }
 
+/// An explicit game: a start position and a cycle of UCI tokens played `rounds` times, the outcome checked after every ply.
+fn cycle_check(case: &Value, stats: &mut Stats) -> CheckResult {
+    let (b, r) = match case_board(case, stats)? {
+        Some(x) => x,
+        None => return Err(Failure::new("harness: cycle case is not a valid position")),
+    };
+    let toks: Vec<String> = case["cycle"].as_array().map(|a| a.iter().filter_map(|x| x.as_str().map(|s| s.to_string())).collect()).unwrap_or_default();
+    let rounds = case["rounds"].as_u64().unwrap_or(3) as usize;
+    let mut sim = ChainSim::new(&b, &r);
+    let mut scratch = Stats::default();
+    check_calc(&sim)?;
+    let mut ply = 0;
+    for _ in 0..rounds {
+        for t in &toks {
+            let m = sim.cur().legal().into_iter().find(|m| m.uci() == *t).ok_or_else(|| Failure::new(format!("harness: {} is not legal at ply {}", t, ply)))?;
+            sim.push_legal(m, (ply % 3) as u8, &mut scratch)?;
+            ply += 1;
+            check_calc(&sim).map_err(|f| Failure::new(format!("after ply {} ({}): {}", ply, t, f.msg)))?;
+        }
+    }
+    while sim.moves.len() > 0 {
+        sim.apply(&Op::Pop, &mut scratch)?;
+        check_calc(&sim).map_err(|f| Failure::new(format!("after popping back to {} plies: {}", sim.moves.len(), f.msg)))?;
+    }
+    stats.label_if(case["src"] == "control", "control_cycle");
+    stats.nontrivial(&(case["fen"].to_string(), case["cycle"].to_string()));
+    Ok(())
+}
+
+/// The keys of all men on all squares, read through the public RawBoard::zobrist_hash.
+fn piece_keys() -> Vec<((Col, Pc), Sq, u64)> {
+    let base = raw_from_ref(&RefPos::empty()).zobrist_hash();
+    let mut out = Vec::new();
+    for c in [Col::W, Col::B] {
+        for pc in [Pc::P, Pc::N, Pc::B, Pc::R, Pc::Q, Pc::K] {
+            for s in 0..64u8 {
+                let mut p = RefPos::empty();
+                p.b[s as usize] = Some((c, pc));
+                out.push(((c, pc), s, raw_from_ref(&p).zobrist_hash() ^ base));
+            }
+        }
+    }
+    out
+}
+
+/// Tries to turn "man x going s<->s2 changes the key exactly like man y going t<->t2" into a real game in which the two
+/// different positions alternate: kings are placed wherever the whole cycle is legal by the reference rules.
+fn build_collision_game(x: (Col, Pc), s: Sq, s2: Sq, y: (Col, Pc), t: Sq, t2: Sq) -> Option<Value> {
+    let squares = [s, s2, t, t2];
+    if (0..4).any(|i| (0..i).any(|j| squares[i] == squares[j])) {
+        return None;
+    }
+    let uci = |a: Sq, b: Sq| format!("{}{}", sq_name(a), sq_name(b));
+    for wk in 0..64u8 {
+        for bk in 0..64u8 {
+            if squares.contains(&wk) || squares.contains(&bk) || wk == bk {
+                continue;
+            }
+            let mut p = RefPos::empty();
+            p.b[wk as usize] = Some((Col::W, Pc::K));
+            p.b[bk as usize] = Some((Col::B, Pc::K));
+            p.b[s as usize] = Some(x);
+            p.b[t as usize] = Some(y);
+            p.side = x.0;
+            if !p.is_valid() {
+                continue;
+            }
+            let cycle: Vec<String> = if x.0 != y.0 {
+                vec![uci(s, s2), uci(t, t2), uci(s2, s), uci(t2, t)]
+            } else {
+                // the other side shuffles its king between two squares
+                let ok = if x.0 == Col::W { bk } else { wk };
+                let step = p.clone();
+                let mut found = None;
+                let mut q = step.clone();
+                q.side = x.0.inv();
+                for m in q.legal() {
+                    if m.man.1 == Pc::K && !squares.contains(&m.to) {
+                        found = Some(m.to);
+                        break;
+                    }
+                }
+                let y2 = found?;
+                vec![uci(s, s2), uci(ok, y2), uci(t, t2), uci(y2, ok), uci(s2, s), uci(ok, y2), uci(t2, t), uci(y2, ok)]
+            };
+            // dry run on the reference model
+            let mut q = p.clone();
+            let mut fine = true;
+            'dry: for _ in 0..2 {
+                for tok in &cycle {
+                    match q.legal().into_iter().find(|m| m.uci() == *tok && matches!(m.kind, Kind::Simple)) {
+                        Some(m) if !q.is_capture(&m) => q = q.apply(&m),
+                        _ => {
+                            fine = false;
+                            break 'dry;
+                        }
+                    }
+                }
+            }
+            if fine {
+                return Some(json!({"fen": p.fen(), "cycle": cycle, "rounds": 3, "src": "key_collision"}));
+            }
+        }
+    }
+    None
+}
+
+/// The occurrence count is kept per Zobrist key. Two positions of one game that differ in where two men stand share a key
+/// exactly when the two single moves change the key by the same amount; such pairs are found here by sorting the key
+/// changes of all single non-pawn moves (a structured generator for a region that random histories cannot reach), and
+/// each is turned into a real game on which the ordinary oracle (occurrence counts by position) decides.
+fn collision_driver(_ctx: &RunCtx, stats: &mut Stats, rep: &mut Reporter) {
+    let keys = piece_keys();
+    let key_of = |m: (Col, Pc), s: Sq| keys.iter().find(|k| k.0 == m && k.1 == s).map(|k| k.2).unwrap();
+    let mut deltas: Vec<(u64, (Col, Pc), Sq, Sq)> = Vec::new();
+    for c in [Col::W, Col::B] {
+        for pc in [Pc::N, Pc::B, Pc::R, Pc::Q, Pc::K] {
+            for s in 0..64u8 {
+                let mut p = RefPos::empty();
+                p.b[s as usize] = Some((c, pc));
+                p.side = c;
+                for m in p.pseudo_legal() {
+                    if m.from == s && m.from < m.to && matches!(m.kind, Kind::Simple) {
+                        deltas.push((key_of((c, pc), s) ^ key_of((c, pc), m.to), (c, pc), s, m.to));
+                    }
+                }
+            }
+        }
+    }
+    stats.count(deltas.len() as u64);
+    stats.add("single_move_key_changes", deltas.len() as u64);
+    deltas.sort();
+    let mut cases: Vec<Value> = vec![
+        serde_json::from_str(r#"{"fen":"N3k3/p7/8/8/8/8/P7/4K2n w - - 0 1","cycle":["a8b6","h1g3","b6a8","g3h1"],"rounds":3,"src":"control"}"#).unwrap(),
+        serde_json::from_str(r#"{"fen":"4k3/8/8/8/8/8/8/RN2K3 w - - 0 1","cycle":["a1a2","e8d8","b1c3","d8e8","a2a1","e8d8","c3b1","d8e8"],"rounds":3,"src":"control"}"#).unwrap(),
+    ];
+    let mut undemonstrated = 0u64;
+    for w in deltas.windows(2) {
+        if w[0].0 == w[1].0 {
+            stats.label("equal_key_change_of_two_moves");
+            match build_collision_game(w[0].1, w[0].2, w[0].3, w[1].1, w[1].2, w[1].3).or_else(|| build_collision_game(w[1].1, w[1].2, w[1].3, w[0].1, w[0].2, w[0].3)) {
+                Some(c) => cases.push(c),
+                None => undemonstrated += 1,
+            }
+        }
+    }
+    stats.add("equal_changes_without_a_legal_game", undemonstrated);
+    for (i, d) in deltas.iter().enumerate() {
+        if i % 97 == 0 {
+            stats.nontrivial(&(d.1, d.2, d.3));
+        }
+    }
+    stats.sample(json!({"single_move_key_changes_compared": deltas.len(), "games_built_from_equal_changes": cases.len() - 2}));
+    for c in &cases {
+        stats.count(1);
+        if let Err(f) = guarded("C14", "key_collision_search", cycle_check, c, stats) {
+            rep(c.clone(), f);
+        }
+    }
+}
+
 fn passes_check(case: &Value, stats: &mut Stats) -> CheckResult {
     let o = all_outcomes()[case["outcome"].as_u64().unwrap_or(0) as usize % 22];
     let f = FILTERS[case["filter"].as_u64().unwrap_or(0) as usize % 3];
@@ -242,6 +403,7 @@ pub fn property() -> Property {
                After every op chain.calc_outcome() must be in that class with a reason that applies; set_auto_outcome(f) for all three \
                filters stores exactly what passes an independently written filter table. deep_repetition: one position \
                made to occur 70-301 times by a reversible 4-ply cycle and then unwound ply by ply with the outcome checked at every step. \
+               key_collision_search: the key changes of all single non-pawn moves on an empty board (read through RawBoard::zobrist_hash) are sorted; two different moves with the same change would make two different positions of one game share an occurrence counter, so each such pair is turned into a real game (kings placed where the cycle is legal) and judged by the same oracle; two control games always run. \
                Outcome::passes / is_force are enumerated over all 22 outcomes x 3 filters. Non-trivial = history reaching a third occurrence with a pop before it or a look-alike \
                position (same squares, different rights/mark); distinct by case.",
         assumptions: &[
@@ -273,6 +435,15 @@ pub fn property() -> Property {
                 check: deep_repetition_check,
                 configs: Configs::ReleaseOnly,
                 required: &["deep_repetition", "more_than_255_occurrences"],
+                regressions: &[],
+                exhaustive: false,
+            },
+            SubCheck {
+                name: "key_collision_search",
+                driver: Driver::Custom { run: collision_driver },
+                check: cycle_check,
+                configs: Configs::ReleaseOnly,
+                required: &["control_cycle"],
                 regressions: &[],
                 exhaustive: false,
             },
